@@ -40,8 +40,8 @@ type CheckCtx struct {
 	Workers int
 	start   time.Time
 
-	drv  *Driver
-	pool chan *Driver
+	drv      *Driver
+	pool     chan *Driver
 	variants bool // the driver pool also needs the -trimpath and sub-package builds
 
 	Models      []ModelRun
